@@ -111,8 +111,20 @@ func (b *balancer) next() (int, error) {
 	if len(b.roundRobinQ) == 1 {
 		return b.roundRobinQ[0], nil
 	}
-	// 无锁原子自增（自动处理溢出）
-	newIndex := atomic.AddUint32(&b.nextIndex, 1)
-	idx := int64(newIndex) % int64(len(b.roundRobinQ))
-	return b.roundRobinQ[idx], nil
+	// Advance the cursor modulo the queue length with a lock-free
+	// compare-and-swap. A free-running uint32 counter reduced by `% len`
+	// breaks the round when it wraps at 2^32 and len does not divide 2^32
+	// (with a queue of 3 the positions used around the wrap are 0, 0, 1:
+	// position 2 is skipped, one node gets an extra pick and
+	// getNodeFromBalancer can miss the only healthy node).
+	for {
+		old := atomic.LoadUint32(&b.nextIndex)
+		idx := int64(old) + 1
+		if idx >= int64(len(b.roundRobinQ)) {
+			idx = 0
+		}
+		if atomic.CompareAndSwapUint32(&b.nextIndex, old, uint32(idx)) {
+			return b.roundRobinQ[idx], nil
+		}
+	}
 }
